@@ -75,17 +75,29 @@ CHECKS = {
         design_ref='DESIGN.md §5 C17',
         note='Process, filesystem, logging and the C pre-processor are observed, not modelled; gcc -E assumed identity on directive-free text.'),
     'C01': dict(
-        technique='Lean 4 proof (refinement of the analysis model to a pointwise reference calculus, structural induction; table tie by regenerated create_vector table) + Lean spec oracle on the implementation reports + differential correspondence',
-        text='Proved: the regenerated create_vector table is the documented rule table; for every loop-free statement of '
-             'the supported fragment the relation of the analysis model MEANS exactly the matrix the pointwise calculus '
-             'Spec.sem derives at every choice vector (structural induction, all aliasing patterns, sugar, if/else, '
-             'blocks). Loops: fixpoint = closure and the W/L corrections are proved pointwise (C10 / RelFix); their '
-             'assembly into the full refinement theorem is in progress (see DESIGN.md). Every run evaluates the FULL '
-             'property on the real code with the Lean calculus as oracle (valid set = derivable set over all 3^k choices, '
-             'matrices at valid choices, bound at the first choice, fin and strict on/off) and diffs the Lean model of the '
-             'whole analysis against the implementation (relation polynomials included).',
-        design_ref='DESIGN.md §5 C01',
-        note='Partial proof: loop cases of the refinement not yet assembled; supported fragment as delimited by Spec.desugar; castOk (no double cast on a right-hand side).'),
+        technique='Lean 4 proof (refinement of the analysis model to a pointwise reference calculus by structural induction incl. loops; function-level theorem; table tie by regenerated create_vector table) + Lean spec oracle on the implementation reports + differential correspondence',
+        text='Proved on the model of Analysis.func (Props/C01b): for a function reported not infinite the choice object '
+             'accepts exactly the choice vectors at which the pointwise calculus Spec.sem derives a matrix, applying such a '
+             'vector to the reported relation gives exactly that matrix, hence the set of reported matrices equals the set of '
+             'derivable matrices (reported_matrices_are_exactly_derivable), via the statement-level refinement '
+             '(compute_refines, loops included: fixpoint = closure, W and L corrections pointwise) and C04/C11; the '
+             'create_vector table is regenerated and proved equal to the documented rule table. The model is tied to the code '
+             'every run: the Lean model of the whole analysis is diffed against the implementation (relation polynomials '
+             'included) and the full property is evaluated on the real reports with Spec.sem as oracle (valid set = derivable '
+             'set over all 3^k choices, matrices, bound at the first choice, fin and strict on/off).',
+        design_ref='DESIGN.md §5 C01, §10',
+        note='Side condition FuncOk (decidable): names non-empty, no double cast on a right-hand side, loop guards fresh, no reserved names as variables; success of the fuelled fixpoint is a hypothesis; numbering of alternatives via Spec.relabel.'),
+    'C02': dict(
+        technique='Lean 4 proof (function-level: infinite verdict iff no choice vector derives, both modes; via statement refinement, delta-graph ghost invariant + C11 collapse soundness, C04 exactness) + Lean spec oracle + differential correspondence',
+        text='Proved on the model of Analysis.func (Props/C02): the function is reported infinite iff the pointwise calculus '
+             'fails at every choice vector, in early-stop and run-to-completion mode alike (infinite_iff_no_derivation), the '
+             'verdict is mode independent, a finite verdict comes with a valid first choice which is a derivation. The '
+             'early-exit path is covered by a ghost invariant (every tuple inserted into the delta graph matches only failing '
+             'vectors) and the C11 theorem. Every run compares the real verdict in both modes with "no choice derives" computed '
+             'by Spec.sem in Lean on generated functions biased towards failing / jointly failing / nested loops, and diffs '
+             'the model.',
+        design_ref='DESIGN.md §5 C02, §10',
+        note='Same side condition FuncOk as C01.'),
     'C05': dict(
         technique='Lean 4 proof (mutual structural induction over the syntax tree: Coverage model vs calculus reading) + bounded-exhaustive template correspondence',
         text='Proved: if the model of the syntax check reports full support then every statement is readable by the '
